@@ -395,7 +395,14 @@ def gen_anamir(rng, quick):
 def gen_meshturbo(rng, quick):
     ndim = rng.choice([1, 2, 2, 3]); nx = [rng.choice([2, 3, 4]) for _ in range(ndim)]
     ang = [D(Fraction(0))] * ndim if ndim == 1 or rng.random() < .5 else [D(Fraction(rng.choice([30, 45, 12.5])))] + [D(Fraction(0))] * (ndim - 1)
-    return [nx, [D(gdbl(rng, pos=True, mag=False)) for _ in range(ndim)], [D(gdbl(rng, mag=False)) for _ in range(ndim)], ang, rng.random() < .5], 'ndim%d' % ndim
+    nech = 1
+    for v in nx: nech *= v
+    sel = []; tag = ''
+    if rng.random() < .3 and min(nx) >= 3:
+        # a few masked nodes, never so many that no mesh stays active (a fully masked mesh is written like an unmasked one)
+        off = set(rng.sample(range(nech), rng.choice([1, 1, 2])))
+        sel = [D(Fraction(0 if k in off else 1)) for k in range(nech)]; tag = '+masked'
+    return [nx, [D(gdbl(rng, pos=True, mag=False)) for _ in range(ndim)], [D(gdbl(rng, mag=False)) for _ in range(ndim)], ang, rng.random() < .5, sel, rng.choice([0, 1])], 'ndim%d%s' % (ndim, tag)
 def gen_meshstd(rng, quick):
     if rng.random() < .6:
         k = rng.choice([1, 2, 3]); ap = []; me = []
@@ -424,6 +431,9 @@ def gen_frac(rng, quick):
 def gen_neighimage(rng, quick):
     ndim = rng.choice([1, 2, 2, 3]); return [ndim, [rng.choice([1, 2, 3, 10]) for _ in range(ndim)], rng.choice([0, 1, 3])], 'ndim%d' % ndim
 TEXT = T(('~text', 's'))
+EMPIRICAL = T(('azmin', 'd'), ('azmax', 'd'), ('aymin', 'd'), ('aymax', 'd'), ('pzmin', 'd'), ('pzmax', 'd'), ('pymin', 'd'), ('pymax', 'd'),
+              ('mean', 'd'), ('variance', 'd'), ('sigma2e', 'd'), ('zDisc', Lst('d')), ('yDisc', Lst('d')), ('flagDilution', 'b'), ('flagGaussian', 'b'))
+TURBO = T(('nx', Lst('i')), ('dx', Lst('d')), ('x0', Lst('d')), ('rotMat', Lst('d')), ('polarized', 'b'), ('mode', 'i'), ('meshMask', Lst('i')), ('gridMask', Lst('i')))
 
 HERMITE = T(('azmin', 'd'), ('azmax', 'd'), ('aymin', 'd'), ('aymax', 'd'), ('pzmin', 'd'), ('pzmax', 'd'), ('pymin', 'd'), ('pymax', 'd'),
             ('mean', 'd'), ('variance', 'd'), ('rCoef', 'd'), ('psiHn', Lst('d')))
@@ -445,10 +455,10 @@ CLASSES = [
     Cls(9, 'AnamHermite', HERMITE, T(('flagBound', 'b'), ('~psiHns', Lst('d')), ('~rawValue', Lst('d'))), gen_hermite),
     Cls(20, 'DbLine', T(), TEXT, gen_dbline, modelled=False),
     Cls(21, 'DbGraphO', T(), TEXT, gen_dbgrapho, modelled=False),
-    Cls(22, 'AnamEmpirical', T(), TEXT, gen_anamemp, modelled=False),
+    Cls(22, 'AnamEmpirical', EMPIRICAL, TEXT, gen_anamemp),
     Cls(23, 'AnamDiscreteDD', T(), TEXT, gen_anamdd, modelled=False),
     Cls(24, 'AnamDiscreteIR', T(), TEXT, gen_anamir, modelled=False),
-    Cls(25, 'MeshETurbo', T(), TEXT, gen_meshturbo, modelled=False),
+    Cls(25, 'MeshETurbo', TURBO, TEXT, gen_meshturbo),
     Cls(26, 'MeshEStandard', T(), TEXT, gen_meshstd, modelled=False),
     Cls(27, 'Rule', T(), TEXT, gen_rule, modelled=False),
     Cls(28, 'RuleShift', T(), TEXT, gen_ruleshift, modelled=False),
@@ -471,9 +481,10 @@ def fail_key(cls, case, what):
         cols = case[2][2] if cls.name == 'Db' else case[2][6]
         if any(' ' in US(c[0]) or US(c[0]).startswith('#') for c in cols): return 'Db:column-name-needs-quoting'
     if cls.name == 'Vario' and case[2][2] in (1, 2, 9): return 'Vario:calcul-type-not-saved'         # regression
-    if cls.name == 'FracEnviron' and what == 'reload-fails': return 'FracEnviron:class-tag-with-blank'   # regression
     if cls.name == 'NeighImage' and what == 'crash': return 'NeighImage:reload-writes-radius-out-of-bounds'  # regression
-    if cls.name == 'DbLine' and case[2][2] < 2: return 'DbLine:line-of-one-sample-not-reloadable'
+    if cls.name == 'DbLine' and case[2][2] < 2: return 'ASerializable:empty-vector-not-read-back'
+    if cls.name == 'FracEnviron' and what == 'reload-fails' and not case[2][6] and case[2][7]: return 'ASerializable:empty-vector-not-read-back'
+    if cls.name == 'FracEnviron' and what == 'reload-fails': return 'FracEnviron:class-tag-with-blank'   # regression
     return '%s:%s' % (what if what == 'crash' else cls.name, cls.name if what == 'crash' else what)
 
 # refined keys: (class, path) -> canonical key of a known asymmetry; default is '<Class>:<path>-not-preserved'
@@ -490,6 +501,7 @@ def key_of(cls, path, a, b, case, allpaths=()):
         if p == 'flagRotation': return 'NeighMoving:rotation-lost'                            # regression
     if cls.name == 'NeighBench' and p == 'width': return 'NeighBench:width-getter-stale-after-reload'   # regression
     if cls.name == 'Table' and p in ('rowNames', 'colNames', 'title'): return 'Table:field-never-written'
+    if cls.name == 'AnamEmpirical' and p in ('flagDilution', 'flagGaussian'): return 'AnamEmpirical:field-never-written'
     if cls.name == 'AnamHermite':
         if p == 'flagBound': return 'AnamHermite:field-never-written'
         if p in ('variance', 'mean') and a is not None and b is not None and abs(a - b) <= 1e-12 * max(abs(a), abs(b)):
